@@ -119,6 +119,27 @@ func init() {
 				return "", err
 			}
 		}
+		// ---- createFn of the namespace / metric dictionaries (limits first, then the counter) and what createValue
+		// does when createFn fails
+		for _, pr := range [][2]string{{"metaGenNSIDCalls", "genNSID"}, {"metaGenMetricIDFnCalls", "genMetricID"}} {
+			if err := emit(pr[0], FindFunc(mmf, "metricMetaDatabase", pr[1]), "metricMetaDatabase."+pr[1]); err != nil {
+				return "", err
+			}
+		}
+		sb.WriteString("\ndef kvCreateValueErrBranchCalls : List (List String) := [" + strings.Join(errBranchCalls(FindFunc(kvf, "indexKVStore", "createValue")), ", ") + "]\n")
+		// ---- control flow of the two Flush methods: is every step's error returned at once ("a failed step
+		// aborts the round")? One pair per call, in evaluation order: (call, guarded by `if err := call(); err != nil { return err }`)
+		sb.WriteString("\ndef indexFlushStepGuards : List (String × Bool) := " + leanGuardList(stepGuards(FindFunc(mif, "metricIndexDatabase", "Flush"))) + "\n")
+		sb.WriteString("\ndef metaFlushStepGuards : List (String × Bool) := " + leanGuardList(stepGuards(FindFunc(mmf, "metricMetaDatabase", "Flush"))) + "\n")
+		// what the error branches of the posting flushes do besides returning the error (nothing: `immutable` stays)
+		sb.WriteString("\ndef invertedFlushErrBranchCalls : List (List String) := [" + strings.Join(errBranchCalls(FindFunc(mif, "invertedIndex", "flush")), ", ") + "]\n")
+		sb.WriteString("\ndef forwardFlushErrBranchCalls : List (List String) := [" + strings.Join(errBranchCalls(FindFunc(mif, "forwardIndex", "flush")), ", ") + "]\n")
+		if err := emit("invertedFlushCalls", FindFunc(mif, "invertedIndex", "flush"), "invertedIndex.flush"); err != nil {
+			return "", err
+		}
+		if err := emit("forwardFlushCalls", FindFunc(mif, "forwardIndex", "flush"), "forwardIndex.flush"); err != nil {
+			return "", err
+		}
 		if err := emit("invertedPrepareFlushCalls", FindFunc(mif, "invertedIndex", "prepareFlush"), "invertedIndex.prepareFlush"); err != nil {
 			return "", err
 		}
@@ -200,6 +221,93 @@ func init() {
 		sb.WriteString("\ndef rowFieldNextNameExprs : List String := " + LeanStrList(returnTexts(FindFunc(rrf, "SimpleFieldIterator", "NextName"))) + "\n")
 		return sb.String(), nil
 	}})
+}
+
+type stepGuard struct {
+	call    string
+	guarded bool
+}
+
+// stepGuards: every call of fd's body that is not inside a function literal or a defer, in evaluation
+// (source) order, with the answer to "is this call the init of `if err := call(); err != nil { …; return err }`
+// (no else)?" — i.e. does a failure of this step end the function at once with that error.
+func stepGuards(fd *ast.FuncDecl) []stepGuard {
+	var out []stepGuard
+	if fd == nil || fd.Body == nil {
+		return out
+	}
+	guarded := map[*ast.CallExpr]bool{}
+	ast.Inspect(fd.Body, func(n ast.Node) bool {
+		is, ok := n.(*ast.IfStmt)
+		if !ok || is.Init == nil || is.Else != nil {
+			return true
+		}
+		as, ok := is.Init.(*ast.AssignStmt)
+		if !ok || len(as.Rhs) != 1 || len(as.Lhs) == 0 {
+			return true
+		}
+		ce, ok := as.Rhs[0].(*ast.CallExpr)
+		if !ok {
+			return true
+		}
+		errID, ok := as.Lhs[len(as.Lhs)-1].(*ast.Ident)
+		if !ok {
+			return true
+		}
+		// cond: <err> != nil
+		be, ok := is.Cond.(*ast.BinaryExpr)
+		if !ok || be.Op != token.NEQ {
+			return true
+		}
+		x, okx := be.X.(*ast.Ident)
+		y, oky := be.Y.(*ast.Ident)
+		if !okx || !oky || x.Name != errID.Name || y.Name != "nil" {
+			return true
+		}
+		// body ends in `return …, <err>`
+		if len(is.Body.List) == 0 {
+			return true
+		}
+		rs, ok := is.Body.List[len(is.Body.List)-1].(*ast.ReturnStmt)
+		if !ok || len(rs.Results) == 0 {
+			return true
+		}
+		if r, ok := rs.Results[len(rs.Results)-1].(*ast.Ident); ok && r.Name == errID.Name {
+			guarded[ce] = true
+		}
+		return true
+	})
+	ast.Inspect(fd.Body, func(n ast.Node) bool {
+		switch x := n.(type) {
+		case *ast.FuncLit, *ast.DeferStmt, *ast.GoStmt:
+			return false
+		case *ast.CallExpr:
+			// arguments are evaluated before the call itself: list them first
+			for _, a := range x.Args {
+				ast.Inspect(a, func(m ast.Node) bool {
+					switch y := m.(type) {
+					case *ast.FuncLit:
+						return false
+					case *ast.CallExpr:
+						out = append(out, stepGuard{exprName(y.Fun), guarded[y]})
+					}
+					return true
+				})
+			}
+			out = append(out, stepGuard{exprName(x.Fun), guarded[x]})
+			return false
+		}
+		return true
+	})
+	return out
+}
+
+func leanGuardList(gs []stepGuard) string {
+	p := make([]string, len(gs))
+	for i, g := range gs {
+		p[i] = fmt.Sprintf("(%q, %v)", g.call, g.guarded)
+	}
+	return "[" + strings.Join(p, ", ") + "]"
 }
 
 // mapStoreIndexTexts: the index expressions of the assignments `m[<index>] = …` in fd, in source order.
